@@ -190,7 +190,7 @@ def index_class(d):
             kinds.add("slice-negstep" if (st is not None and st < 0) else ("slice-step" if st not in (None, 1) else "slice"))
         elif t in ("ilist", "iarr"):
             flat = np.array(x["v"]).reshape(-1).tolist()
-            kinds.add("intarray-repeated" if len(set(flat)) < len(flat) else "intarray")
+            kinds.add("intarray-repeated" if len(set(flat)) < len(flat) else ("intarray-mixed-sign" if (min(flat) < 0 <= max(flat)) else "intarray"))
         elif t == "int":
             kinds.add("int-neg" if x["v"] < 0 else "int")
         else:
@@ -257,3 +257,31 @@ def factorizations(n, maxrank=3):
                 rec(rem // f, cur + [f]) if f > 1 else (rec(rem, cur + [1]) if len(cur) < maxrank - 1 else None)
     rec(n, [])
     return sorted(out)
+
+
+def as_storage(x, storage, rng, base_pool):
+    """returns an array equal to x but stored as the requested kind of view"""
+    x = np.asarray(x)
+    if storage == "plain" or x.ndim == 0:
+        return x.copy()
+    if storage == "transposed":
+        return np.ascontiguousarray(x.T).T
+    if storage == "strided":
+        big = np.empty((x.shape[0] * 2,) + x.shape[1:], dtype=x.dtype)
+        big[...] = 7.25
+        big[::2] = x
+        return big[::2]
+    if storage == "reshaped":
+        flat = x.reshape(-1).copy()
+        return flat.reshape(x.shape)
+    if storage == "shared-base":
+        # all operands of the case live in one base buffer, side by side
+        buf = base_pool.setdefault(x.dtype.str, np.full(4096, 3.5, dtype=x.dtype))
+        off = base_pool.get("off", 0)
+        if off + x.size > buf.size:
+            return x.copy()
+        v = buf[off:off + x.size].reshape(x.shape)
+        v[...] = x
+        base_pool["off"] = off + x.size
+        return v
+    return x.copy()
